@@ -1,5 +1,6 @@
 """C19 - import items are reordered only on request, and then only permuted."""
 import re
+import grammar
 import cfg
 import effects
 from prov import Prov, strip_casts, place_key
@@ -265,7 +266,21 @@ def _dup_check_obligations(w, fb, kinds):
         if tgt is None:
             out.append((False, cons, 'items of kind %s are not examined by the duplicate test: `import "m": a, x as a` could be sorted' % k))
             continue
-        if cfg.paths_avoiding(fb, tgt, {h}, {ins_bb}):
+        # inside the arm of kind k a cast::<T>() with k in kinds(T) cannot fail: its None edge is infeasible
+        infeasible = set()
+        for bi in cfg.reachable_from(fb, tgt, stop={ins_bb, h}):
+            ct = fb.blocks[bi]['term']
+            if ct['t'] != 'call':
+                continue
+            mm = re.search(r"SyntaxNode::cast::<'?[^,>]*,?\s*typst_syntax::ast::(\w+)", callee_str(ct) or '')
+            if not mm or k not in grammar.load()['kinds_of'].get(mm.group(1), []):
+                continue
+            nb = ct.get('target')
+            if nb is not None and fb.blocks[nb]['term']['t'] == 'switch':
+                for e_tgt, label in v.switch_edges(nb):
+                    if 'None' in v.label_values(nb, label):
+                        infeasible.add(e_tgt)
+        if cfg.paths_avoiding(fb, tgt, {h}, {ins_bb} | infeasible):
             out.append((False, cons, 'an item of kind %s can skip the HashSet::insert' % k))
             continue
         # the name inserted on this path comes from the right accessor
